@@ -63,6 +63,19 @@ class AddBounceHooks(QHooks):
     def prim_stralloc_cats(self, E, x, args):
         return self._set(E, self._bytes(E, x, args), True)
 
+    def _nbytes(self, E, x, args):
+        n = args[2]
+        data = self._bytes(E, x, args)
+        if n is TOP or len(n) != 1 or not isinstance(next(iter(n)), int) or next(iter(n)) > len(data):
+            raise AnalysisBroken('addbounce: cannot model the length of appended data %s' % x.args[2].src())
+        return data[:next(iter(n))]
+
+    def prim_stralloc_copyb(self, E, x, args):
+        return self._set(E, self._nbytes(E, x, args), False)
+
+    def prim_stralloc_catb(self, E, x, args):
+        return self._set(E, self._nbytes(E, x, args), True)
+
     def prim_stripvdomprepend(self, E, x, args):
         v = args[0]
         self.stripped = v is not TOP and v == fs(('&', 'RCP[0]'))
@@ -105,7 +118,11 @@ class AddBounceHooks(QHooks):
                   'report %r yields %r: text after a blank line lets the report forge further recipient paragraphs' % (rep, s), E)
 
     def prim_write(self, E, x, args):
-        return [Outcome(ret=fs(1000))]
+        # everything asked for is written (a write never reports more than it was handed)
+        n = args[2]
+        if n is TOP or len(n) != 1 or not isinstance(next(iter(n)), int):
+            raise AnalysisBroken('addbounce: write() with an undetermined count')
+        return [Outcome(ret=fs(next(iter(n))))]
 
     def prim_close(self, E, x, args):
         return [Outcome(ret=TOP)]
